@@ -137,7 +137,11 @@ def replay_walk(task: dict) -> dict:
             # resynchronise the real classes with the spec state and go on (keeps edge coverage)
             init = _ov_to_init(edge["to"], world.n)
             events = []
-            world.force({cur: init[cur]})
+            try:
+                world.force({cur: init[cur]})
+            except W.ForceFailed:
+                out["abandoned"] = True
+                break
             out["resyncs"] += 1
             obs = world.observe(render=True, gate=True)
             if _compare(world, {"op": {"res": "ok", "k": "sync", "exp": edge["op"]["exp"]}, "to": edge["to"]},
@@ -211,7 +215,10 @@ def record(task: dict) -> dict:
     try:
         init = task.get("init") or W.clean_init(world.n)
         if task.get("init"):
-            world.force({st: init[st] for st in W.FAM_SETTINGS[fam]})
+            try:
+                world.force({st: init[st] for st in W.FAM_SETTINGS[fam]})
+            except W.ForceFailed as e:
+                raise tlc.MachineryError(f"c20: the scenario's start state cannot be re-created: {e}") from e
         ev = []
         for op in task["ops"]:
             res, used = world.do(op)
